@@ -655,7 +655,174 @@ fn beh_name(b: &Beh) -> String {
 
 const HOOK_TIMEOUT: u64 = 25;
 
+
+fn copy_dir(from: &Path, to: &Path) {
+    let _ = std::fs::remove_dir_all(to);
+    std::fs::create_dir_all(to).unwrap();
+    if let Ok(rd) = std::fs::read_dir(from) {
+        for e in rd.flatten() {
+            let p = e.path();
+            if p.is_file() {
+                let _ = std::fs::copy(&p, to.join(e.file_name()));
+            }
+        }
+    }
+}
+
+/// Names of the hook points the client process that started last has hit so far.
+fn points_of_last_process(trace: &Path) -> Vec<String> {
+    let text = std::fs::read_to_string(trace).unwrap_or_default();
+    let mut cur: Vec<String> = Vec::new();
+    for l in text.lines() {
+        let name = l.split_once(' ').map(|x| x.1).unwrap_or(l);
+        if name == "process.start" {
+            cur.clear();
+        } else {
+            cur.push(name.to_string());
+        }
+    }
+    cur
+}
+
+/// C05, retry path under a crash at every hook point: appointments are pending for a tower that was down, the
+/// client is restarted with the tower up again and aborts at its k-th hook point (commit points of the client
+/// database, retry-loop boundaries) while its retrier delivers them; it is then started once more and must end
+/// with every appointment recorded exactly once. k sweeps all the points a reference run of the same start hits.
+async fn scenario_c05_retry_sweep(seed: u64, id: u64, base: &Path, r: &mut PropReport) {
+    let mut rng = Rng::stream(seed, 0xC05B, id);
+    let dir = base.join(format!("c05s-{id}"));
+    let snap = base.join(format!("c05s-{id}.snap"));
+    let _ = std::fs::remove_dir_all(&dir);
+    let opts = PluginOpts { max_retry_time: 2, auto_retry_delay: 3, max_interval: 1, abort_at: None };
+    let replay = json!({"engine":"e4","family":"c05","seed":seed,"scenario":id});
+    let n_towers = 1 + rng.usize(2);
+    let mut towers = Vec::new();
+    for _ in 0..n_towers {
+        towers.push(FakeTower::start(&mut rng).await);
+    }
+    let cleanup = |dir: &Path, snap: &Path| {
+        let _ = std::fs::remove_dir_all(dir);
+        let _ = std::fs::remove_dir_all(snap);
+    };
+    // ---- phase A: appointments pending for the first tower (down); the others (if any) accept or reject
+    let mut plugin = match Plugin::start(&dir, &opts).await {
+        Ok(p) => p,
+        Err(e) => {
+            r.inconclusive += 1;
+            r.note(format!("c05 sweep {id}: plugin did not start: {e}"));
+            return;
+        }
+    };
+    r.eval();
+    for t in &towers {
+        let _ = plugin.call("registertower", json!([format!("{}@127.0.0.1:{}", hex::encode(t.id.to_vec()), t.port)]), 20).await;
+    }
+    towers[0].set_up(false);
+    if n_towers > 1 && rng.chance(1, 2) {
+        towers[1].state.lock().unwrap().default_add = Beh::ApiError(4);
+    }
+    let n_rev = 1 + rng.usize(2);
+    let mut revs = Vec::new();
+    for k in 0..n_rev {
+        let rev = revocation(&mut rng, k as u32 + 1);
+        if plugin.revoke(&rev, HOOK_TIMEOUT).await.is_err() {
+            r.inconclusive += 1;
+            plugin.kill().await;
+            cleanup(&dir, &snap);
+            return;
+        }
+        revs.push(rev);
+    }
+    plugin.kill().await;
+    copy_dir(&dir, &snap);
+    towers[0].set_up(true);
+    let ctx0 = format!("retry-path crash sweep {id} ({n_towers} towers, {n_rev} appointments pending for a tower that was down)");
+    let tid0 = hex::encode(towers[0].id.to_vec());
+    // ---- reference: which points does a start on this directory hit until everything is delivered?
+    let mut plugin = match Plugin::start(&dir, &opts).await {
+        Ok(p) => p,
+        Err(e) => {
+            r.violation("C05:restart-failed", format!("{ctx0}: {e}"), replay.clone());
+            cleanup(&dir, &snap);
+            return;
+        }
+    };
+    let settled = |st: Option<(String, usize)>| st.map_or(false, |s| s.0 == "reachable" && s.1 == 0);
+    let mut ok = false;
+    for _ in 0..60 {
+        tokio::time::sleep(Duration::from_millis(250)).await;
+        if settled(tower_status(&mut plugin, &tid0).await) {
+            ok = true;
+            break;
+        }
+    }
+    let names = points_of_last_process(&plugin.trace);
+    plugin.kill().await;
+    if !ok {
+        r.violation("C05:pending-not-delivered-after-restart", format!("{ctx0}: 15 s after a restart with the tower up again the pending appointments are not delivered"), replay.clone());
+        cleanup(&dir, &snap);
+        return;
+    }
+    if let Some((sig, detail)) = check_records(&dir, &towers, &revs, &ctx0) {
+        r.violation(sig, detail, replay.clone());
+        cleanup(&dir, &snap);
+        return;
+    }
+    r.count("retry_sweep_reference_points", names.len() as u64);
+    // ---- the sweep
+    let ks: Vec<usize> = (1..=names.len().min(24)).collect();
+    for k in ks {
+        copy_dir(&snap, &dir);
+        let ctx = format!("{ctx0}, abort at hook point #{k} ({})", names[k - 1]);
+        let mut p1 = match Plugin::start(&dir, &PluginOpts { abort_at: Some(k), ..opts.clone() }).await {
+            Ok(p) => Some(p),
+            Err(_) => None, // died while starting: fine, that is the crash
+        };
+        if let Some(p) = p1.as_mut() {
+            for _ in 0..60 {
+                if !p.alive() {
+                    break;
+                }
+                tokio::time::sleep(Duration::from_millis(100)).await;
+            }
+            p.kill().await;
+        }
+        let mut p2 = match Plugin::start(&dir, &opts).await {
+            Ok(p) => p,
+            Err(e) => {
+                r.violation("C05:restart-failed", format!("{ctx}: the client did not start again: {e}"), replay.clone());
+                break;
+            }
+        };
+        let mut ok = false;
+        for _ in 0..80 {
+            tokio::time::sleep(Duration::from_millis(250)).await;
+            if settled(tower_status(&mut p2, &tid0).await) {
+                ok = true;
+                break;
+            }
+        }
+        let verdict = check_records(&dir, &towers, &revs, &ctx);
+        p2.kill().await;
+        r.count(&format!("retry_sweep_abort_at[{}]", names[k - 1].split(':').next().unwrap_or("")), 1);
+        r.eval();
+        r.nontrivial(fnv(format!("sweep:{id}:{k}").as_bytes()));
+        if let Some((sig, detail)) = verdict {
+            r.violation(sig, detail, replay.clone());
+            break;
+        }
+        if !ok {
+            r.violation("C05:pending-not-delivered-after-crash", format!("{ctx}: 20 s after the restart that followed the crash the tower is not shown reachable with nothing pending"), replay.clone());
+            break;
+        }
+    }
+    cleanup(&dir, &snap);
+}
+
 async fn scenario_c05(seed: u64, id: u64, base: &Path, r: &mut PropReport) {
+    if id % 4 == 2 {
+        return scenario_c05_retry_sweep(seed, id, base, r).await;
+    }
     let mut rng = Rng::stream(seed, 0xC05, id);
     let dir = base.join(format!("c05-{id}"));
     let _ = std::fs::remove_dir_all(&dir);
